@@ -94,6 +94,29 @@ fn hll_coupon_case(ctx: &Ctx, lg_k: u8, tgt: u8, set_mode: bool, coupons: &[u32]
                 bad.push((format!("{tag}.continuation"), format!("after one more coupon {c:#x}: {}", errs.first().map(|e| e.1.clone()).unwrap_or_else(|| format!("estimate {} vs in-process {}", b.estimate(), a.estimate())))));
             }
         }
+        // long drive: through every promotion still ahead (list -> set -> array, set growth),
+        // full oracle at the end
+        if lg_k <= 12 {
+            let n = ((1u64 << lg_k.max(8)) / 8 + 48).min(700);
+            let mut b = d.clone();
+            let mut rr = r.clone();
+            let mut dead = false;
+            for i in 0..n {
+                let c = crate::c03::value_coupon(0xfeed_0000 + i);
+                if let Err(p) = catch(|| b.verif_update_with_coupon(c)) {
+                    bad.push((format!("panic|{}", p.site_key()), format!("long drive after deserialize panicked at step {i}: {} at {}:{}", p.message, p.file, p.line)));
+                    dead = true;
+                    break;
+                }
+                rr.offer(c);
+            }
+            if !dead {
+                let errs = hllm::check_state(&b.verif_state(), &rr, lg_k);
+                if !errs.is_empty() {
+                    bad.push((format!("{tag}.long_continuation"), format!("after {n} more coupons: {}", errs[0].1)));
+                }
+            }
+        }
         let mut u = HllUnion::new(lg_k.max(5));
         u.update(&d);
         u.update_value(1u64);
@@ -200,6 +223,31 @@ fn hll_array_case(ctx: &Ctx, lg_k: u8, tgt: u8, regs: &[u8], cur_min: u8, o: Enc
                     if !errs.is_empty() {
                         bad.push((format!("{tag}.continuation"), format!("after one more coupon {c:#x}: {}", errs[0].1)));
                     }
+                }
+            }
+        }
+        // long drive: enough coupons for cur_min shifts with the restored aux map live
+        if lg_k <= 8 {
+            let n = (12u64 << lg_k).min(3000);
+            let mut x = d.clone();
+            let mut want = regs.to_vec();
+            let mut rr = r.clone();
+            let mut dead = false;
+            for i in 0..n {
+                let c = crate::c03::value_coupon(0xfeed_0000 + i);
+                if let Err(p) = catch(|| x.verif_update_with_coupon(c)) {
+                    bad.push((format!("panic|{}", p.site_key()), format!("long drive after deserialize panicked at step {i}: {} at {}:{}", p.message, p.file, p.line)));
+                    dead = true;
+                    break;
+                }
+                let s = (hllm::c_slot(c) & (k - 1)) as usize;
+                want[s] = want[s].max(hllm::c_val(c));
+                rr.offer(c);
+            }
+            if !dead {
+                let errs = hllm::check_state_with(&x.verif_state(), &rr, &want, lg_k);
+                if !errs.is_empty() {
+                    bad.push((format!("{tag}.long_continuation"), format!("after {n} more coupons: {}", errs[0].1)));
                 }
             }
         }
